@@ -74,7 +74,9 @@ func NewHierarchicalConjunctiveThresholdAccessStructure(levels ...*ThresholdLeve
 			return nil, ErrValue.WithMessage("thresholds must be less than or equal to the number of parties")
 		}
 
-		ls = append(ls, &ThresholdLevel{l.threshold, parties.List()})
+		sortedParties := parties.List()
+		slices.Sort(sortedParties)
+		ls = append(ls, &ThresholdLevel{l.threshold, sortedParties})
 	}
 
 	h := &HierarchicalConjunctiveThreshold{levels: ls}
